@@ -62,7 +62,9 @@ def gen_scenarios(rnd: random.Random, count, max_n=4):
 
 
 def header(sc):
-    return {k: sc[k] for k in ('n', 'cap', 'conc', 'retexc', 'fail', 'prefail', 'srcfail', 'srcbase', 'maybreak', 'mode')}
+    h = {k: sc[k] for k in ('n', 'cap', 'conc', 'retexc', 'fail', 'prefail', 'srcfail', 'srcbase', 'maybreak', 'mode')}
+    h['subfail'] = 0
+    return h
 
 
 def _run_scenario(sc, ev):
